@@ -57,6 +57,24 @@ theorem C02_published (d : Definition) (cfg : Gen.Cfg) (items : List Gen.Item) (
         Gen.Item.raw (s!"#[repr(align({d.maxTypeAlign}))]pub struct {Gen.capped s.vid}<{Gen.CAPG}>" ++ "{data:RecordMaybeUninit<CAP>,}") ∈ items :=
   Gen.module_layout_items d cfg items h
 
+/-- the published capacity is not merely an upper bound: it is *attained* — either the definition
+    stores nothing (capacity 0) or some datum of some variant ends exactly at `MAX_SIZE`; so no
+    smaller constant would contain every datum (`C02_contained` is tight) -/
+theorem C02_capacity_tight (def_ : Definition) (m : Nat) (hm : def_.maxSize = some m) :
+    m = 0 ∨ ∃ v ∈ def_.variants, ∃ d ∈ v, off def_.defs d + sz def_.defs d = m := by
+  unfold Definition.maxSize at hm
+  simp only at hm
+  split at hm
+  · simp at hm
+  · simp only [Option.some.injEq] at hm
+    subst hm
+    rcases foldl_max_mem ((def_.variants.flatten).map (fun id => stop def_.defs id)) 0 with h | h
+    · left; exact h
+    · right
+      obtain ⟨id, hid, he⟩ := List.mem_map.1 h
+      obtain ⟨v, hv, hidv⟩ := List.mem_flatten.1 hid
+      exact ⟨v, hv, id, hidv, he⟩
+
 /-- the three statements combined, in the form a user of the generated code relies on: for a
     definition built from any valid history, if the record buffer starts at an address that is a
     multiple of the imposed record alignment (`#[repr(align(max_type_align()))]`), then the *absolute
